@@ -58,3 +58,34 @@ def exStatic : Static := { hasModGlue := fun m => m = 1 || m = 3, hasBuiltin := 
                            modRaises := fun m => m = 3, builtinRaises := fun _ => false }
 example : (runOps exStatic [.insert 1, .insert 2, .extract, .insert 3, .extract, .remove 1, .insert 1, .extract]).log
     = [.ranMod 1, .ranBuiltin 2, .returned, .ranMod 3, .warn 3, .returned, .returned] := by decide
+
+/-! ### Scans during which modules vanish (finding F16, repaired in /repo)
+
+`OpR.extract gone`: an extraction whose scan takes its snapshot and then finds the modules in `gone` removed
+(by an earlier module's glue, or by another thread).  The repaired code skips such a name and rescans later. -/
+
+/-- Exactly once / never both kinds also when modules vanish during scans, for every history. -/
+theorem C17_once_vanishing (st : Static) (ops : List OpR) : (ranOf (runOpsR st ops).log).Nodup :=
+  (runOpsR_inv st ops).nodup
+
+theorem C17_module_first_vanishing (st : Static) (ops : List OpR) (m : Mod)
+    (h : Ev.ranBuiltin m ∈ (runOpsR st ops).log) : st.hasModGlue m = false := by
+  apply (runOpsR_inv st ops).builtinOnlyIfNoMod
+  simp only [builtinRan, List.mem_filterMap]
+  exact ⟨_, h, rfl⟩
+
+/-- With nothing vanishing, the extended scan is the plain one (the earlier theorems are instances). -/
+theorem C17_vanishing_conservative (st : Static) (g : GState) : addGlueR st g [] = addGlue st g := addGlueR_nil st g
+
+/-- What the code did before the repair: module 1 has both kinds of glue; it vanishes during the first scan
+(built-in glue runs for it), is re-inserted, and the next scan runs its own glue as well. -/
+def f16Static : Static := { hasModGlue := fun m => m = 1, hasBuiltin := fun m => m = 1, modRaises := fun _ => false, builtinRaises := fun _ => false }
+def f16Ops : List OpR := [.insert 0, .insert 1, .extract [1], .insert 1, .insert 2, .extract []]
+
+theorem C17_F16_old_code_witness :
+    Ev.ranBuiltin 1 ∈ (f16Ops.foldl (stepOld f16Static) GState.init).log ∧ Ev.ranMod 1 ∈ (f16Ops.foldl (stepOld f16Static) GState.init).log := by
+  decide
+
+/-- …and the repaired scan on the same history: only the module's own glue, once, and in time. -/
+theorem C17_F16_repaired : (runOpsR f16Static f16Ops).log = [.returned, .ranMod 1, .returned] := by decide
+
